@@ -45,6 +45,39 @@ impl DbDef {
     }
 }
 
+/// CREATE INDEX statements over random column subsets of the database's tables (1–2 indexes on
+/// about two tables in three, 1–2 columns each): results of queries must not depend on them
+pub fn random_index_sql(r: &mut Rng, dbd: &DbDef) -> Vec<String> {
+    let mut out = vec![];
+    for (ti, t) in dbd.tables.iter().enumerate() {
+        if !r.chance(2, 3) {
+            continue;
+        }
+        let n = t.schema.cols.len();
+        for k in 0..(1 + r.below(2)) {
+            let a = r.below(n as u64) as usize;
+            let mut cols = vec![a];
+            if n > 1 && r.chance(1, 2) {
+                let b = (a + 1 + r.below(n as u64 - 1) as usize) % n;
+                cols.push(b);
+            }
+            let list: Vec<String> = cols.iter().map(|c| format!("{}{}", t.schema.cols[*c].0, if r.chance(1, 5) { " DESC" } else { "" })).collect();
+            out.push(format!("CREATE INDEX ix{}_{} ON {} ({})", ti, k, t.schema.table, list.join(", ")));
+        }
+    }
+    out
+}
+
+/// deterministic 64-bit hash of a case text (to derive per-case choices without threading an rng)
+pub fn text_hash(s: &str) -> u64 {
+    let mut h: u64 = 0xcbf29ce484222325;
+    for b in s.bytes() {
+        h ^= b as u64;
+        h = h.wrapping_mul(0x100000001b3);
+    }
+    h
+}
+
 #[derive(Clone, Copy, Debug, PartialEq, Eq)]
 pub enum AggFn {
     CountStar,
